@@ -9,7 +9,8 @@ An edit whose anchor text no longer occurs in the current source is reported as 
 mutant list needs maintenance) but is not a failure of the property.
 
 Mutants live in sa/mutants/<pid>.py as a list MUTANTS of dicts:
-  {name, kind, file, old, new, rule (optional), count (optional, default 1)}
+  {name, kind, file, old, new, rule (optional), count (optional, default 1)}  or, for several edits in one file,
+  {name, kind, file, edits: [(old, new[, count]), ...], rule}
 """
 import importlib
 import os
@@ -34,10 +35,15 @@ def _one(args):
         path = os.path.join(root, rel)
         with open(path, encoding="utf-8") as fh:
             src = fh.read()
-        cnt = src.count(m["old"])
-        if cnt != m.get("count", 1):
-            return (m["name"], "stale", "anchor text occurs %d times" % cnt)
-        new_src = src.replace(m["old"], m["new"])
+        edits = m.get("edits") or [(m["old"], m["new"], m.get("count", 1))]
+        new_src = src
+        for e in edits:
+            old, new = e[0], e[1]
+            want = e[2] if len(e) > 2 else 1
+            cnt = new_src.count(old)
+            if cnt != want:
+                return (m["name"], "stale", "anchor text occurs %d times: %r" % (cnt, old[:60]))
+            new_src = new_src.replace(old, new)
         try:
             compile(new_src, rel, "exec")
         except SyntaxError as e:
